@@ -73,12 +73,15 @@ func cmdSweep(args []string) {
 			}
 		}
 	}
-	for _, g := range groupObls(cr.obls) {
+	groups := groupObls(cr.obls)
+	cr.vacuityGuard(groups)
+	for _, g := range groups {
 		if g.Status != "discharged" || verbose {
 			fmt.Printf("  %-10s %-8s %6dms %s (%d inst) %s\n", g.Status, g.Solver, g.Ms, g.Name, len(g.Insts), g.Pos)
 			if g.Status == "failed" && verbose {
 				for _, o := range g.Insts {
 					if o.Res.Status == "sat" {
+						fmt.Println("        path:", strings.Join(o.Trace, " "))
 						for _, k := range sortedKeys(o.Res.Model) {
 							fmt.Printf("        %s = %s\n", k, o.Res.Model[k])
 						}
